@@ -198,10 +198,14 @@ class Project(object):
             parts = []
             while True:
                 # (a directory modules are searched in is no part of their names)
-                if not self.is_root(root) and os.path.exists(os.path.join(root, '__init__.py')):
+                parent = os.path.dirname(root)
+                if (parent != root and not self.is_root(root) and
+                        os.path.exists(os.path.join(root, '__init__.py'))):
                     parts.insert(0, os.path.basename(root))
-                    root = os.path.dirname(root)
+                    root = parent
                 else:
+                    # (a file name without a directory has no parent to go
+                    # to: '' is its own dirname)
                     break
 
             if not parts:
